@@ -117,6 +117,19 @@ func (c *Ctx) pkgPolicy(fr *frame, fn *ssa.Function, path string, args []value, 
 			return TFalse, true
 		}
 		return nil, false
+	case "math/big":
+		// big.Float is never interpreted (floating point is outside the technique). A *big.Float that is only
+		// built and passed on (log fields) is an opaque token: methods that return the receiver do so without
+		// computing anything; whatever would turn a Float back into a decided value (Int, Cmp, Sign, Float64,
+		// Text ...) stays unsupported and aborts the path as inconclusive.
+		if r := fn.Signature.Recv(); r != nil && namedPath(derefOrSelf(r.Type())) == "math/big.Float" {
+			res := fn.Signature.Results()
+			if res.Len() == 1 && namedPath(derefOrSelf(res.At(0).Type())) == "math/big.Float" && len(args) > 0 {
+				return args[0], true
+			}
+			c.unsupported("big.Float.%s at %s (floating point is not encoded)", fn.Name(), c.posStr(pos))
+		}
+		return nil, false
 	case "unsafe", "reflect", "internal/reflectlite":
 		c.unsupported("call into %s: %s at %s", path, fn.Name(), c.posStr(pos))
 	}
